@@ -118,3 +118,16 @@ def probe_shared(v, shared=None):
     d = digest(v)
     return (d, len(ih), ih.values.shape, tuple(ih.values_at_depth(0).tolist())[:2], len(ixgo), tuple(ixgo.values.tolist()),
             ixgo.positions.tolist() == list(range(len(ixgo))), bool(ixgo.positions.flags.writeable))
+
+
+def frame_build_probe(f, n=3, shared=None):
+    '''Batch task for thread mode: builds containers (allocator, caches) and reads shared lazily cached state.'''
+    import static_frame as sf
+    k = (len(f.index) % 4) + n
+    ix = sf.Index(range(k))
+    pos = ix.positions
+    out = [len(pos), int(bool(pos.flags.writeable)), int(pos.tolist() == list(range(k)))]
+    if shared is not None:
+        ih, ixgo = shared
+        out += [len(ih), ih.values.shape[0], len(ixgo), int(ixgo.positions.tolist() == list(range(len(ixgo))))]
+    return sf.Series(out, name=f.name)
